@@ -395,6 +395,13 @@ func (u *storeUnderTest) apply(op sop) string {
 				}
 				pb = &st
 			}
+			// the message is a snapshot: what happens to its source afterwards must not show through it
+			if mn, mx, ok := argExp.MinMax(); ok {
+				arg.AddWithCount(mn, 3)
+				arg.Add(mx)
+				arg.AddWithCount((mn+mx)/2, 5)
+				_ = arg.Reweight(4)
+			}
 			mergeProto(u.s, pb, op.Meth)
 			if op.Meth && u.kind.Name == "paginated" {
 				u.cl.label("paginated-method-mergewithproto")
@@ -665,4 +672,37 @@ func (g *opGen) drawOp(t *rapid.T, u *storeUnderTest) sop {
 	default:
 		return sop{Kind: kind}
 	}
+}
+
+// partialUnderflowProbe: a copy of the store is reweighted by 2^-1074 (every weight below about one half vanishes,
+// the others become a few subnormal units). Exact weights are not representable there, so nothing is compared with
+// the model; what must still hold is that iteration reports no bin of weight zero (or below), no index twice and no
+// index that held nothing before.
+func (u *storeUnderTest) partialUnderflowProbe() string {
+	before := map[int]bool{}
+	u.s.ForEach(func(i int, c float64) bool { before[i] = true; return false })
+	c := u.s.Copy()
+	if err := c.Reweight(0x1p-1074); err != nil {
+		return fmt.Sprintf("Reweight(2^-1074) returned %v", err)
+	}
+	seen := map[int]bool{}
+	msg := ""
+	c.ForEach(func(i int, w float64) bool {
+		switch {
+		case !(w > 0):
+			msg = fmt.Sprintf("after Reweight(2^-1074) iteration reports bin %d with weight %v", i, w)
+		case seen[i]:
+			msg = fmt.Sprintf("after Reweight(2^-1074) iteration reports bin %d twice", i)
+		case !before[i]:
+			msg = fmt.Sprintf("after Reweight(2^-1074) iteration reports bin %d, which held nothing before", i)
+		}
+		seen[i] = true
+		return msg != ""
+	})
+	for b := range c.Bins() {
+		if msg == "" && !(b.Count() > 0) {
+			msg = fmt.Sprintf("after Reweight(2^-1074) the bin stream reports bin %d with weight %v", b.Index(), b.Count())
+		}
+	}
+	return msg
 }
